@@ -21,6 +21,8 @@ def r6(ctx):
 
 
 RULES = {
+    "C13.R8": lambda ctx: __import__("rules.typesrules", fromlist=["x"]).sort_after_write(ctx, "C13.R8"),
+    "C13.RG": lambda ctx: __import__("rules.foundations", fromlist=["x"]).no_global_state(ctx, "C13.RG"),
     "C13.R7b": lambda ctx: __import__("rules.bldrules", fromlist=["x"]).map_new(ctx, "C13.R7b"),
     "C13.R7": lambda ctx: __import__("rules.bldrules", fromlist=["x"]).builder_new(ctx, "C13.R7"),
     "C13.RL": lambda ctx: __import__("rules.common", fromlist=["x"]).loop_exit_rule(ctx, "C13.RL", {'builder::SourceMapBuilder::into_sourcemap': 0}),
